@@ -102,10 +102,15 @@ class StepThread:
     def start(self):
         self.t.start()
         self.breaker.parked.acquire()   # until the worker waits for its first tick (or is dead)
+        if not self.t.is_alive() or self.exc is not None:
+            self.t.join()
+            self.reaped = True          # it died before its first wait: its last `parked` signal is the one just consumed
     def join(self):
         self.t.join()
-        # the dying worker released `parked` once more: consume it
-        self.breaker.parked.acquire()
+        if not getattr(self, "reaped", False):
+            # the dying worker released `parked` once more: consume it
+            self.breaker.parked.acquire()
+            self.reaped = True
     def is_alive(self): return self.t.is_alive()
 
 def _mk_thread(group=None, target=None, name=None, args=(), kwargs=None, daemon=None):
@@ -146,6 +151,7 @@ def worker_tick(gen):
         # fresh worker on the same counter, as the direct-call harness did (clck_src is not incremented by a failed tick)
         exc, th.exc = th.exc, None
         th.t.join()
+        th.reaped = True
         gen._thread = StepThread(gen._worker)
         gen._thread.start()
         raise exc
